@@ -267,8 +267,8 @@ pub fn property() -> Property {
             "for SignedDuration the zero_unit option is drawn from hours..nanoseconds only (calendar units cannot be parsed into a SignedDuration, documented)",
         ],
         checks: vec![
-            Box::new(Prop { name: "c15.span", quick: 800_000, thorough: 40_000_000, strategy: strat_span_case, test: test_span }),
-            Box::new(Prop { name: "c15.duration", quick: 800_000, thorough: 40_000_000, strategy: strat_dur_case, test: test_duration }),
+            Box::new(Prop { name: "c15.span", quick: 3_200_000, thorough: 40_000_000, strategy: strat_span_case, test: test_span }),
+            Box::new(Prop { name: "c15.duration", quick: 3_200_000, thorough: 40_000_000, strategy: strat_dur_case, test: test_duration }),
         ],
         floors: |rec| {
             rec.floor("c15.span:non-default-config", "c15.span:cases", 0.30);
